@@ -37,6 +37,7 @@ def if_(k, body, orelse=()): return {"s": "if", "k": k, "body": list(body), "ore
 def try_(body, handlers=(), orelse=(), final=()):
     return {"s": "try", "body": list(body), "handlers": [dict(h) for h in handlers], "orelse": list(orelse), "final": list(final)}
 def handler(nm, body, typ="ScriptExc"): return {"name": nm, "type": typ, "body": list(body)}
+def match_(k1, k2, a, b, body): return {"s": "match", "k1": k1, "k2": k2, "a": a, "b": b, "body": list(body)}   # match (E, E): case (a, b): body
 def with_(k, t, body, sup=False): return {"s": "with", "k": k, "t": t, "body": list(body), "sup": sup}   # sup: the manager swallows exceptions
 def import_(mod, asname=""): return {"s": "import", "mod": mod, "as": asname}
 def from_import(mod, nm, asname=""): return {"s": "from", "mod": mod, "name": nm, "as": asname}
@@ -210,6 +211,10 @@ def p_stmt(s, ind, twin):
         if s["final"]:
             out += [f"{ind}finally:"] + p_block(s["final"], nxt, twin)
         return out
+    if k == "match":
+        return [f"{ind}match (E({s['k1']}), E({s['k2']})):", f"{nxt}case ({s['a']}, {s['b']}):"] \
+            + (binds([s["a"], s["b"]], nxt + "    ") if twin else []) + p_block(s["body"], nxt + "    ", twin) \
+            + [f"{nxt}case _:", f"{nxt}    pass"]
     if k == "with":
         head = f"{ind}with {'SCM' if s.get('sup') else 'CM'}({s['k']})" + (f" as {s['t']}" if s["t"] else "") + ":"
         return [head] + (binds([s["t"]], nxt) if twin and s["t"] else []) + p_block(s["body"], nxt, twin)
@@ -349,6 +354,9 @@ def local_names(prog):
             addn(s["v"])
         if s["s"] == "with" and s["t"]:
             addn(s["t"])
+        if s["s"] == "match":
+            addn(s["a"])
+            addn(s["b"])
         if s["s"] == "import":
             addn(s["as"] or s["mod"].split(".")[0])
         if s["s"] == "from":
